@@ -267,6 +267,8 @@ def _lean_item(t: List[str]) -> str:
         body = f".struct {t[2]} {t[3]} {spec(t[4:])}"
     elif k == "message":
         body = f".message {t[2]} ({t[3]}) {t[4]} {spec(t[5:])}"
+    elif k == "reserved":
+        body = f".reserved {t[2]} ({t[3]}) {t[4]}"
     else:
         body = f".signal {t[2]} ({t[3]}) {t[4]}"
     return f"({core}, {body})"
